@@ -23,7 +23,7 @@ TECHNIQUE = 'descriptor/audit monitor (/proc/self/fd diff + sys.addaudithook + R
 RULE = ('base files from vlib.model.gen_file; corruption kinds x API x ownership x index; non-trivial = the API raised, or a '
         'close->read->close history ran; distinct = (corruption kind, outcome raised/returned + exception type, API, path|stream, index kind)')
 ASSUMPTIONS = ['Linux /proc/self/fd is authoritative for open descriptors', 'the harness closes all files it opens itself (with-blocks)']
-REQUIRED = ['api_calls', 'api_raised', 'fd_scans', 'library_open_events', 'after_close_ops', 'caller_streams_checked', 'writer_sessions',
+REQUIRED = ['caller_index_streams_checked', 'writer_reuse_blocks', 'api_calls', 'api_raised', 'fd_scans', 'library_open_events', 'after_close_ops', 'caller_streams_checked', 'writer_sessions',
             'index_opened_by_library', 'double_close']
 N = {'quick': 40, 'thorough': 2500}
 
@@ -161,6 +161,54 @@ def run_case(case, ctx):
                 fdmon.take_warnings()
                 with fdmon.NoGC():
                     one_call(ctx, TdmsFile, api, own, path, bad, info, fresh_vals if ik in ('none', 'matching') else None, rng, ik)
+    # ---- a caller-supplied INDEX stream (content starting with TDSh) is a caller stream too
+    if case['corrupt'] in ('none', 'garbage', 'bad-tag-later'):
+        for api in ('read', 'read_metadata', 'open-close', 'with'):
+            ctx.evaluation()
+            istream = io.BytesIO(idx if case['corrupt'] == 'none' else (idx[:len(idx) // 2] + b'XXXX' + idx[len(idx) // 2:] if case['corrupt'] == 'bad-tag-later' else b'TDSh' + bad[4:]))
+            try:
+                if api == 'read':
+                    TdmsFile.read(istream)
+                elif api == 'read_metadata':
+                    TdmsFile.read_metadata(istream)
+                elif api == 'open-close':
+                    t_ = TdmsFile.open(istream)
+                    t_.close()
+                    t_.close()
+                else:
+                    with TdmsFile.open(istream):
+                        pass
+            except Exception:
+                ctx.count('api_raised')
+            ctx.count('caller_index_streams_checked')
+            if istream.closed:
+                ctx.violation('caller-stream-closed/index-stream/%s' % api, {'corrupt': case['corrupt']})
+    # ---- one TdmsWriter object used for several with-blocks (append mode, one block per batch)
+    for index in (False, True):
+        ctx.evaluation()
+        wpath = os.path.join(ctx.tmpdir, 'reuse.tdms')
+        for p_ in (wpath, wpath + '_index'):
+            if os.path.exists(p_):
+                os.remove(p_)
+        fdmon.take_opens()
+        fdmon.take_warnings()
+        with fdmon.NoGC():
+            try:
+                with TdmsWriter(wpath, index_file=index) as w0:
+                    w0.write_segment([ChannelObject('g', 'c', np.arange(2))])
+                w = TdmsWriter(wpath, mode='a', index_file=index)
+                for batch in range(3):
+                    with w:
+                        w.write_segment([ChannelObject('g', 'c', np.arange(3))])
+                    ctx.count('writer_sessions')
+                    scan(ctx, 'writer-reused-object-after-with', {'writer': True, 'reused_writer_object': True, 'block': batch, 'index': index})
+                got = TdmsFile.read(wpath)['g']['c'][:]
+                if len(got) != 2 + 3 * 3:
+                    ctx.violation('writer-reused-object/data-not-flushed', {'len': len(got), 'expected': 11, 'index': index})
+                ctx.count('writer_reuse_blocks', 3)
+            except Exception as ex:
+                ctx.violation('writer-reused-object/raises/%s' % util.exc_key(ex), {'exc': util.exc_detail(ex), 'index': index})
+            scan(ctx, 'writer-reused-object-end', {'writer': True, 'index': index})
     # ---- writer sessions
     for own in ('path', 'stream'):
         for index in (False, True):
